@@ -36,10 +36,7 @@ Definition tx_ka_seg (g : ghost) (r : tcp_repr) : Prop :=
 
 Definition tx_pkt_ok (g : ghost) (p : packet) : Prop :=
   let r := snd p in
-  0 <= r_seq_number r < 2 ^ 32 /\ l_len (r_payload r) <= 65535 /\
-  match r_ack_number r with Some a => 0 <= a < 2 ^ 32 | None => True end /\
-  0 <= r_window_len r <= 65535 /\
-  match r_window_scale r with Some v => 0 <= v | None => True end /\
+  l_len (r_payload r) <= 65535 /\
   (r_control r = CSyn -> l_len (r_payload r) = 0 /\ r_seq_number r = sq (g_iss g)) /\
   (r_control r = CRst -> l_len (r_payload r) = 0) /\
   (carries r -> g_phase g <> PSyn /\ (tx_stream_seg g r \/ tx_ka_seg g r)).
@@ -62,26 +59,24 @@ Definition tx_same (g : ghost) (s : socket) (ev : event) (g' : ghost) (out : ste
 Definition tx_blank (g : ghost) : Prop :=
   g_stream g = [] /\ g_fin g = false /\ g_phase g = PSyn.
 
-(* the step starts a new epoch: the socket was reset (address removed), or a blank epoch is
-   replaced by a blank one with a new initial sequence number (SYN accepted in LISTEN, listen(),
-   connect(), SYN-RECEIVED falling back to LISTEN) *)
+(* the step starts a new epoch: the socket was reset (address removed); a blank epoch is replaced
+   by a blank one with a new initial sequence number (SYN accepted in LISTEN, SYN-RECEIVED falling
+   back to LISTEN); or the application called listen() / connect() (from any finished connection) *)
 Definition tx_new (cx : ctx) (g : ghost) (s : socket) (ev : event) (g' : ghost) (s' : socket)
            (out : step_out) : Prop :=
   tx_blank g' /\
   ((s_state s' = Closed /\ tx_emitted out = None) \/
-   (tx_blank g /\
-    match ev with
-    | EvSegment _ _ => s_state s = Listen \/ s_state s' = Listen
-    | EvListen _ => True
-    | EvConnect _ _ _ => g_iss g' = cx_isn cx
-    | _ => False
-    end)).
+   match ev with
+   | EvSegment _ _ => tx_blank g /\ (s_state s = Listen \/ s_state s' = Listen)
+   | EvListen _ => True
+   | EvConnect _ _ _ => g_iss g' = cx_isn cx
+   | _ => False
+   end).
 
 Definition c05_contract : Prop :=
   forall cx g s ev s' out tags,
     inv g s -> ctx_ok cx ->
     match ev with EvSegment ip r => repr_ok r | _ => True end ->
-    rb_wf (s_rx_buffer s) -> 0 <= s_remote_win_shift s ->
     tcp_step cx s ev = Ok (s', out, tags) ->
     exists g', inv g' s' /\
                (tx_same g s ev g' out \/ tx_new cx g s ev g' s' out) /\
